@@ -417,6 +417,10 @@ def handle (j : Json) : E Json := do
     let src ← jStr j "src"
     let id ← jInt (← j.getObjVal? "id")
     pure (Json.mkObj [("model", Json.bool (M.admits mo src id)), ("spec", Json.bool (S.admits mo src id))])
+  | "load_text" =>
+    -- whole-text inputs go through serde_yaml, which is not modelled: the model's answer is the
+    -- statement of C15_load / C15_compile / compileInto_no_panic (no panic outcome is reachable)
+    pure (Json.mkObj [("model", Json.str "nopanic")])
   | "parse_cond" =>
     let s ← jStr j "s"
     let r : Json := match M.parseCond s with
@@ -452,12 +456,13 @@ def handle (j : Json) : E Json := do
       | [] => (fbitsTbl.find? (fun p => p.2.isSome)).bind (·.2)
       | s => (fbitsTbl.lookup s).getD none
     let r : Json := match M.parseMatch x s with
-      | some m =>
+      | .ok m =>
         let fb' : Str → Option Nat := match m with
           | .direct _ _ (.num _) => fun _ => (fbitsTbl.lookup (M.sanitize ((M.parseDirect s).map (·.2.2) |>.getD []))).getD none
           | _ => fb
         Json.mkObj [("ast", matchJson fb' m)]
-      | none => "err"
+      | .err => "err"
+      | .panic => "panic"
     pure (Json.mkObj [("model", r)])
   | "num_cmp" =>
     let a ← jValue (← j.getObjVal? "a")
